@@ -349,6 +349,17 @@ func enumerateCNF(tier string, seed int64, certOnly bool, yield func(string, cor
 	}) {
 		return
 	}
+	d3len := 4
+	if thorough {
+		d3len = 5
+	}
+	d3cfg := []cfg{{"slice", 0, 0, 1}, {"dimacs", 0, 0, 0}}
+	if certOnly {
+		d3cfg = d3cfg[:1]
+	}
+	if !famD3(d3len, func(f [][]int, n int) bool { return emit("D3", f, n, d3cfg) }) {
+		return
+	}
 	s3seq, s3multi := 3, 3
 	if thorough {
 		s3seq, s3multi = 4, 5
